@@ -96,7 +96,7 @@ def stepO (s : State) : Op → State × Out
         | (true, b') => ({ s1 with backend := b', persist := del s1.persist t, okPut := ins s1.okPut t }, .ok)
         | (false, b') => ({ s1 with backend := b' }, .storageErr)
       else
-        match Retry.stepO s1.r (.addBegin t 0) with
+        match Retry.stepO s1.r (.addBegin t 0 []) with
         | (_, .closed) => (s1, .storageErr)
         | (r1, _) => ({ s1 with r := Retry.step r1 (.addEnq t), okPut := ins s1.okPut t }, .ok)
     | o => (s, o)
